@@ -39,18 +39,18 @@ def main():
             if pkgdir is None:
                 rc, o = sh("grep -rl '^package %s$' --include=*.go . | head -1" % pkg.replace('_test',''), cwd=wt)
                 pkgdir = os.path.dirname(o.strip()) or '.'
-            shutil.copy(d+'/demo_test.go', os.path.join(wt, pkgdir, 'zz_seed_demo_test.go'))
+            shutil.copy(d+'/demo_test.go', os.path.join(wt, pkgdir, 'zz_seed_demo_%s_test.go' % sid.replace('-','_')))
             tests = re.findall(r'^func (Test\w+)\(', demo, re.M)
             rc, out = sh("go test -vet=off -count=1 -run '^(%s)$' ./%s" % ('|'.join(tests), pkgdir), cwd=wt, timeout=900)
             meta['demo_fails_with_change'] = rc != 0
             meta['demo_output'] = out[-800:]
-            os.remove(os.path.join(wt, pkgdir, 'zz_seed_demo_test.go'))
+            os.remove(os.path.join(wt, pkgdir, 'zz_seed_demo_%s_test.go' % sid.replace('-','_')))
             # the same demonstration passes on the unchanged tree
-            shutil.copy(d+'/demo_test.go', os.path.join('/repo', pkgdir, 'zz_seed_demo_test.go'))
+            shutil.copy(d+'/demo_test.go', os.path.join('/repo', pkgdir, 'zz_seed_demo_%s_test.go' % sid.replace('-','_')))
             try:
                 rc, out = sh("go test -vet=off -count=1 -run '^(%s)$' ./%s" % ('|'.join(tests), pkgdir), cwd='/repo', timeout=900)
             finally:
-                os.remove(os.path.join('/repo', pkgdir, 'zz_seed_demo_test.go'))
+                os.remove(os.path.join('/repo', pkgdir, 'zz_seed_demo_%s_test.go' % sid.replace('-','_')))
             meta['demo_passes_without_change'] = rc == 0
             if rc != 0: meta['demo_output_unchanged_tree'] = out[-800:]
             # checks
